@@ -90,15 +90,22 @@ def handle (line : String) : String :=
           encBytes.all (fun b => !strict || b.length - 6 ≤ mx)
         let expected := (ps.map normPdu).map showPdu
         let inputs := ptoks
-        let expectTok := expected.map fun t =>
-          match inputs.findIdx? (· == t) with
-          | some k => ["ok", s!"={k}"]
-          | none => "ok" :: t
+        -- received PDUs, brought to normal form (the property's equality is up to the documented
+        -- normalisation; `=k` names the tokens of input PDU k)
+        let received (cs : List Call) : List (List String) :=
+          (okResults cs).map fun r =>
+            let toks := match r with
+              | ["ok", ref] =>
+                if ref.startsWith "=" then (inputs.getD ((ref.drop 1).toString.toNat?.getD 0) []) else r.drop 1
+              | _ => r.drop 1
+            match parsePdu toks with
+            | some q => showPdu (normPdu q)
+            | none => ["?"]
         -- 1. the property on the implementation's outputs
         let check (name : String) (cs : List Call) : Option String :=
           if !inScope then none
-          else if okResults cs ≠ expectTok then
-            some s!"PROP-FAIL class=sequence-mismatch {name}: received {(okResults cs).map (·.take 4)} expected {expectTok.map (·.take 4)}"
+          else if received cs ≠ expected then
+            some s!"PROP-FAIL class=sequence-mismatch {name}: received {(received cs).map (·.take 4)} expected {expected.map (·.take 4)}"
           else none
         match check "sync" syncCalls, check "async" asyncCalls with
         | some m, _ => m
